@@ -241,7 +241,7 @@ def make_loader(sc, corp, init_epoch):
         # the data parameters either ride along in the loader parameters or are handed over separately
         params, data_params = (data.DynamicLengthDataLoaderParams(**dl), data.SpectDataParams(**dp)) if split else (data.SpectDataLoaderParams(**dl, **dp), None)
         return data.SpectDataLoader(
-            corp.dir, params, data_params, batch_first=sc["batch_first"], sort_batch=sc["sort_batch"], on_uneven_distributed=sc["mode"],
+            corp.dir, params, data_params, batch_first=sc["batch_first"], sort_batch=sc["sort_batch"], on_uneven_distributed="".join(list(sc["mode"])),
             file_prefix=sc["prefix"], file_suffix=sc["suffix"], suppress_alis=sc["suppress_alis"], suppress_uttids=sc["suppress_uttids"],
             tokens_only=sc["tokens_only"], warn_on_missing=False, **stats, **common,
         )
@@ -250,7 +250,7 @@ def make_loader(sc, corp, init_epoch):
         dp = dict(sos=sc["sos"], eos=sc["eos"], subset_ids=subset)
         params, data_params = (data.DynamicLengthDataLoaderParams(**dl), data.LangDataParams(**dp)) if split else (data.LangDataLoaderParams(**dl, **dp), None)
         return data.LangDataLoader(
-            corp.dir, params, data_params, batch_first=sc["batch_first"], sort_batch=sc["sort_batch"], on_uneven_distributed=sc["mode"],
+            corp.dir, params, data_params, batch_first=sc["batch_first"], sort_batch=sc["sort_batch"], on_uneven_distributed="".join(list(sc["mode"])),
             file_prefix=sc["prefix"], file_suffix=sc["suffix"], suppress_uttids=sc["suppress_uttids"], tokens_only=sc["tokens_only"], **common,
         )
     if sc["kind"] == "ctx":
@@ -271,7 +271,7 @@ class Bare:
         from pydrobert.torch import data
 
         n = sc["n"]
-        mode = "drop" if sc["drop_last"] else sc["mode"]
+        mode = "".join(list("drop" if sc["drop_last"] else sc["mode"]))  # an equal string, not the literal's object
         if sc["shuffle"]:
             self.sampler = data.EpochRandomSampler(range(n), init_epoch, sc["seed"], mode)
         else:
